@@ -1243,6 +1243,32 @@ example : (exec Ex.cx 4 (.intSet 5 9) Ex.st).1 ≠ .err .outOfFuel ∧
   · intro h; cases h
   · rfl
 
+/-! ### The open doubt about the default `<pIndex>` offset, made concrete -/
+
+namespace Ex3
+/-- 0 port · 1 Integer (slot 0 = 2), the index · 2 IntReg: Address 16, `<pIndex>` 1 WITHOUT
+Offset, Length 4 — element 2 of an array of 4-byte registers starting at 16 -/
+def graph : Graph Int Unit
+  | 0 => some (.port {} false)
+  | 1 => some (.integer {} (.value 0) (.imm 1) (.imm 2) (.imm 1))
+  | 2 => some (.intReg ⟨{}, [.address (.imm 16), .pIndex 1 none], .imm 4, .rw, 0⟩ .unsigned .le)
+  | _ => none
+def cx : Ctx Int Unit := ⟨Ex.ops, Profile.dev, graph⟩
+def st : St Int := ⟨[.int 2, .int 0, .int 9], ⟨List.replicate 32 0, 0, 0⟩, []⟩
+def rb : RegBase := ⟨{}, [.address (.imm 16), .pIndex 1 none], .imm 4, .rw, 0⟩
+end Ex3
+
+/-- The code, the model and the reference semantics (reading `.one`) put the register at
+16 + 2·1 = 18; under the other reading of the default offset (`.registerLength`, the
+register-array reading) the same description means 16 + 2·4 = 24.  Which one the standard
+prescribes is NOT settled here (see the DOUBT note in Spec/GenApiSem.lean and
+props/C03.json → assumptions). -/
+example : (exec Ex3.cx 3 (.regAddress 2) Ex3.st).1 = .ok (.int 18) ∧
+    specRegAddress Ex3.cx 2 2 Ex3.st.s = some 18 ∧
+    addrSum Ex3.cx (valSem Ex3.cx 2) (effectiveAddrsFor .one Ex3.rb) 0 Ex3.st.s = some 18 ∧
+    addrSum Ex3.cx (valSem Ex3.cx 2) (effectiveAddrsFor .registerLength Ex3.rb) 0 Ex3.st.s = some 24 := by
+  refine ⟨?_, ?_, ?_, ?_⟩ <;> rfl
+
 namespace Ex2
 /-- 0: Integer over a value-store slot · 1: Integer with pValue 0, locked by 0, pMax 0, pInc 0 -/
 def graph : Graph Int Unit
